@@ -606,7 +606,7 @@ func (runInfo *runInfoStruct) makeCallArgs(rt reflect.Type, isRunVMFunction bool
 	if runInfo.err != nil {
 		return nil, false
 	}
-	runInfo.rv, runInfo.err = convertReflectValueToType(runInfo.rv, sliceType)
+	runInfo.rv, runInfo.err = runInfo.convertValue(runInfo.rv, sliceType)
 	if runInfo.err != nil {
 		runInfo.err = newStringError(callExpr.SubExprs[indexExpr],
 			"function wants argument type "+rt.In(indexInReal).String()+" but received type "+runInfo.rv.Type().String())
@@ -631,7 +631,7 @@ func (runInfo *runInfoStruct) convertArg(rv reflect.Value, rt reflect.Type) (ref
 			return convertVMFunctionToTypeContext(runInfo.ctx, fn, rt)
 		}
 	}
-	return convertReflectValueToType(rv, rt)
+	return runInfo.convertValue(rv, rt)
 }
 
 // processCallReturnValues get/converts the values returned from a function call into our normal reflect.Value, error
